@@ -507,9 +507,43 @@ COMPOSED = [
 ]
 
 
+# Boundary constructions of the composed classes (always included)
+CORNERS: dict[str, list[dict[str, Any]]] = {
+    'ControlledGate': [
+        # every level selected on the control = the gate without control
+        S('ControlledGate', gate=S('RYGate'), num_controls=1, control_radixes=3, control_levels=[[0, 1, 2]]),
+        S('ControlledGate', gate=S('ShiftGate', radix=3), control_radixes=3),
+        S('ControlledGate', gate=S('RYGate'), num_controls=2, control_radixes=[3, 4], control_levels=[[0, 1], 0]),
+    ],
+    'PowerGate': [
+        S('PowerGate', gate=S('EmbeddedGate', gate=S('U3Gate'), radixes=5), power=0),
+        S('PowerGate', gate=S('ControlledGate', gate=S('RXGate'), control_radixes=3), power=0),
+        S('PowerGate', gate=S('U3Gate'), power=0),
+        S('PowerGate', gate=S('CSUMGate', radix=3), power=-2),
+    ],
+    'DaggerGate': [S('DaggerGate', gate=S('DaggerGate', gate=S('U3Gate')))],
+    'EmbeddedGate': [
+        S('EmbeddedGate', gate=S('U3Gate'), radixes=2),             # nothing to embed
+        S('EmbeddedGate', gate=S('CNOTGate'), radixes=[3, 2], level_maps=[[2, 0], [1, 0]]),
+    ],
+    'FrozenParameterGate': [
+        S('FrozenParameterGate', gate=S('HGate'), frozen_params={}),   # constant gate, nothing frozen
+        S('FrozenParameterGate', gate=S('XGate'), frozen_params={}),
+        S('FrozenParameterGate', gate=S('U3Gate'), frozen_params={}),
+        S('FrozenParameterGate', gate=S('U3Gate'), frozen_params={'2': 0.0, '0': 1.0, '1': -1.0}),
+    ],
+    'TaggedGate': [S('TaggedGate', gate=S('HGate', radix=3), tag={'k': 1})],
+    'VariableLocationGate': [
+        S('VariableLocationGate', gate=S('CNOTGate'), locations=[[0, 1]]),
+        S('VariableLocationGate', gate=S('CNOTGate'), locations=[[1, 2], [2, 0], [0, 1]]),
+    ],
+}
+
+
 def _composed(cls: str) -> Recipe:
     def f(rng: np.random.Generator, n: int) -> list[dict[str, Any]]:
-        out: list[dict[str, Any]] = []
+        out: list[dict[str, Any]] = copy.deepcopy(CORNERS.get(cls, []))
+        n += len(out)
         tries = 0
         while len(out) < n and tries < 50 * n:
             tries += 1
